@@ -159,6 +159,14 @@ def _test_slug_func(text: str) -> str:
     return text[::-1]
 
 
+def check_words_per_minute(_: "MdParserConfig", field: dc.Field, value: Any) -> None:
+    """Check that the reading speed is a positive integer."""
+    if not isinstance(value, int):
+        raise TypeError(f"'{field.name}' must be of type int (got {value!r})")
+    if value < 1:
+        raise ValueError(f"'{field.name}' must be a positive integer: {value!r}")
+
+
 def check_fence_as_directive(
     inst: "MdParserConfig", field: dc.Field, value: Any
 ) -> None:
@@ -337,7 +345,7 @@ class MdParserConfig:
     words_per_minute: int = dc.field(
         default=200,
         metadata={
-            "validator": instance_of(int),
+            "validator": check_words_per_minute,
             "help": "For reading speed calculations",
         },
     )
